@@ -278,7 +278,7 @@ func (t *taskManager) executor(currentTask *task) {
 		}
 		verifhook.Y("tm.push.pre")
 		t.mu.Lock()
-		verifhook.Ev("tm.push", currentTask.nodeKey)
+		verifhook.EvP("tm.push", t, currentTask.nodeKey)
 		t.l.PushBack(currentTask)
 		t.updateChan()
 		t.mu.Unlock()
@@ -340,7 +340,7 @@ func (t *taskManager) waitOne() (*task, bool) {
 	verifhook.Y("tm.wait.pre")
 	ta := <-t.done
 	verifhook.Y("tm.wait.post")
-	verifhook.Ev("tm.collect", ta.nodeKey)
+	verifhook.EvP("tm.collect", t, ta.nodeKey)
 	t.mu.Lock()
 	t.updateChan()
 	t.mu.Unlock()
@@ -373,7 +373,7 @@ func (t *taskManager) updateChan() {
 	for t.l.Len() > 0 {
 		select {
 		case t.done <- t.l.Front().Value.(*task):
-			verifhook.Ev("tm.handoff", t.l.Front().Value.(*task).nodeKey)
+			verifhook.EvP("tm.handoff", t, t.l.Front().Value.(*task).nodeKey)
 			t.l.Remove(t.l.Front())
 		default:
 			return
